@@ -50,10 +50,10 @@ def format_cardinality(in_val):
         if max_int and min_int and v_max >= v_min:
             return v_min, v_max
 
-        if max_int and not v_min:
+        if max_int and v_min is None:
             return None, v_max
 
-        if min_int and not v_max:
+        if min_int and v_max is None:
             return v_min, None
 
         # Use helpful exception message in the following case:
